@@ -74,6 +74,8 @@ pub struct Faults {
     /// Device `d` does not service frame number `at` (it forwards it untouched: a transient
     /// dropout of exactly one frame; devices behind it still see the frame).
     pub miss: Option<(usize, u64)>,
+    /// Device `d` services no frame at all while this is set (it still forwards them).
+    pub deaf: Option<usize>,
     /// Logical read/write answers: XOR every data byte that no read FMMU of any device supplied
     /// with this (non-zero) value. "Arbitrary device answers" for the bytes of an LRW the MainDevice
     /// must not take over (its own outputs, gaps): legal on a real segment whenever some read FMMU
@@ -271,18 +273,22 @@ impl Net {
         }
         let tx_copy = f.clone();
         let mut ring = self.ring();
+        let populated = !ring.is_empty();
+        if let Some(d) = self.faults.deaf {
+            ring.retain(|i| *i != d);
+        }
         if let Some((d, at)) = self.faults.miss {
             if at == self.frame_no {
                 ring.retain(|i| *i != d);
-                if ring.is_empty() {
-                    // somebody still forwards the frame (U/L bit set), nobody services it
-                    f.src = wire::MAC_RETURNED;
-                    if self.keep_log {
-                        self.log.push(WireLog { frame_no: self.frame_no, tx: tx_copy, rx: Some(f.clone()), t_us: vclock::now() });
-                    }
-                    return Some(wire::encode_frame(&f));
-                }
             }
+        }
+        if populated && ring.is_empty() {
+            // somebody still forwards the frame (U/L bit set), nobody services it
+            f.src = wire::MAC_RETURNED;
+            if self.keep_log {
+                self.log.push(WireLog { frame_no: self.frame_no, tx: tx_copy, rx: Some(f.clone()), t_us: vclock::now() });
+            }
+            return Some(wire::encode_frame(&f));
         }
         if ring.is_empty() {
             if self.empty_sets_ul_bit {
